@@ -314,7 +314,7 @@ impl Property for C01 {
     }
     fn post(&self, tier: Tier, seed: u64, root: &std::path::Path) -> Result<Value, Failure> {
         if tier == Tier::Thorough {
-            crate::fuzzapi::run_fuzz_campaign("C01", root, seed, 400_000, 8)
+            crate::fuzzapi::run_fuzz_campaign("C01", root, seed, 40_000, 8)
         } else {
             Ok(Value::Null)
         }
@@ -387,7 +387,7 @@ impl Property for C02 {
     }
     fn post(&self, tier: Tier, seed: u64, root: &std::path::Path) -> Result<Value, Failure> {
         if tier == Tier::Thorough {
-            crate::fuzzapi::run_fuzz_campaign("C02", root, seed, 400_000, 8)
+            crate::fuzzapi::run_fuzz_campaign("C02", root, seed, 120_000, 8)
         } else {
             Ok(Value::Null)
         }
